@@ -18,10 +18,33 @@
  * so nesting is printed down to a fixed depth only. */
 #define VAL_PRINT_MAX_DEPTH 64
 
-static void val_print_depth(NanoValue v, FILE *out, int depth) {
+/* Containers entered by one top-level print: a value that shares sub-containers (or contains
+ * itself) would otherwise be expanded (branching factor)^depth times */
+#define VAL_PRINT_MAX_CONTAINERS 100000
+
+typedef struct {
+    const void *path[VAL_PRINT_MAX_DEPTH + 2];  /* containers being printed, outermost first */
+    long containers_left;
+} ValPrintCtx;
+
+static void val_print_depth(NanoValue v, FILE *out, int depth, ValPrintCtx *pc) {
     if (depth > VAL_PRINT_MAX_DEPTH) {
         fprintf(out, "...");
         return;
+    }
+    if (v.tag == TAG_ARRAY || v.tag == TAG_STRUCT || v.tag == TAG_UNION || v.tag == TAG_TUPLE) {
+        const void *self = (const void *)v.as.obj;
+        for (int i = 0; i < depth; i++) {
+            if (self && pc->path[i] == self) {      /* the container contains itself */
+                fprintf(out, "...");
+                return;
+            }
+        }
+        if (pc->containers_left-- <= 0) {
+            fprintf(out, "...");
+            return;
+        }
+        pc->path[depth] = self;
     }
     switch (v.tag) {
         case TAG_VOID:
@@ -56,7 +79,7 @@ static void val_print_depth(NanoValue v, FILE *out, int depth) {
                 fprintf(out, "[");
                 for (uint32_t i = 0; i < v.as.array->length; i++) {
                     if (i > 0) fprintf(out, ", ");
-                    val_print_depth(v.as.array->elements[i], out, depth + 1);
+                    val_print_depth(v.as.array->elements[i], out, depth + 1, pc);
                 }
                 fprintf(out, "]");
             } else {
@@ -71,7 +94,7 @@ static void val_print_depth(NanoValue v, FILE *out, int depth) {
                     if (v.as.sval->field_names && v.as.sval->field_names[i]) {
                         fprintf(out, "%s: ", vmstring_cstr(v.as.sval->field_names[i]));
                     }
-                    val_print_depth(v.as.sval->fields[i], out, depth + 1);
+                    val_print_depth(v.as.sval->fields[i], out, depth + 1, pc);
                 }
                 fprintf(out, "}");
             } else {
@@ -83,7 +106,7 @@ static void val_print_depth(NanoValue v, FILE *out, int depth) {
                 fprintf(out, "variant(%u", v.as.uval->variant);
                 for (uint32_t i = 0; i < v.as.uval->field_count; i++) {
                     fprintf(out, ", ");
-                    val_print_depth(v.as.uval->fields[i], out, depth + 1);
+                    val_print_depth(v.as.uval->fields[i], out, depth + 1, pc);
                 }
                 fprintf(out, ")");
             } else {
@@ -95,7 +118,7 @@ static void val_print_depth(NanoValue v, FILE *out, int depth) {
                 fprintf(out, "(");
                 for (uint32_t i = 0; i < v.as.tuple->count; i++) {
                     if (i > 0) fprintf(out, ", ");
-                    val_print_depth(v.as.tuple->elements[i], out, depth + 1);
+                    val_print_depth(v.as.tuple->elements[i], out, depth + 1, pc);
                 }
                 fprintf(out, ")");
             } else {
@@ -118,7 +141,9 @@ static void val_print_depth(NanoValue v, FILE *out, int depth) {
 }
 
 void val_print(NanoValue v, FILE *out) {
-    val_print_depth(v, out, 0);
+    ValPrintCtx pc;
+    pc.containers_left = VAL_PRINT_MAX_CONTAINERS;
+    val_print_depth(v, out, 0, &pc);
 }
 
 void val_println(NanoValue v) {
